@@ -16,7 +16,7 @@ RULE = ("states = (multiset of <=N respondents, config) on CAT/MR pairings in 2-
         "missing category of every dimension at every payload position; non-trivial = some cell "
         "has a finite index AND some respondent has a missing column answer; distinct = distinct "
         "index tensors")
-ASSUMPTIONS = ["weights {1,2}", "in a response carrying a numeric mean the respondents counted are those "
+ASSUMPTIONS = ["weights {1,2}; {0.25,0.5} in the fracw_* spaces", "in a response carrying a numeric mean the respondents counted are those "
                "with a valid numeric answer (numeric answers {missing, 1})", "unconditional share = members of the row element / respondents "
                "eligible for it (valid on the rows dimension / item), any column answer"]
 TRUSTED = ["numpy"]
@@ -59,6 +59,12 @@ def _build():
     reg.add(Schema("catF_x_cat_x_mr", [T, A1, M], [("cat", 0), ("cat", 1), ("mr", 2)]), configs=[{}], quick=2, thorough=2)
     reg.add(Schema("catF_x_mr_x_cat", [T, M, A1], [("cat", 0), ("mr", 1), ("cat", 2)]), configs=[{}], quick=2, thorough=2)
     reg.add(Schema("mr_x_cat_x_cat", [M, A1, B1], [("mr", 0), ("cat", 1), ("cat", 2)]), configs=[{}], quick=2, thorough=3)
+    # fractional weights: weighted eligible bases between 0 and 1
+    FW = (0.25, 0.5)
+    reg.add(S.schema2("fracw_mr_x_cat", M, A, weighted=True), FW, configs=[{}], quick=2, thorough=3)
+    reg.add(S.schema2("fracw_cat_x_mr", A, M, weighted=True), FW, configs=[{}], quick=2, thorough=3)
+    reg.add(S.schema2("fracw_cat_x_cat", A, S.cat("b", 2, "first"), weighted=True), FW, configs=[{}], quick=2, thorough=3)
+    reg.add(S.schema2("fracw_mr_x_mr", M, N_, weighted=True), FW, configs=[{}], quick=2, thorough=2)
     # responses carrying a numeric mean: every count is a count of respondents with a valid numeric
     # answer (weighted and unweighted valid counts both present), and so is the unconditional share
     num = {"measures": ["mean"], "valid_counts": True}
